@@ -18,6 +18,10 @@ SEM_FAULTS = ['g0 + (x < 1) == 1', '-(x < 1) == 1', '!x', '(x ? 1 : 2) == 1', '(
 # faults the parser recovers from inside the label (the error production of a bracket resynchronises): the label still delivers an expression
 RECOVERED = ['( * 2 )', '2 * ( * 3 )', '( )', '( + )', '1 + ( * )', '( * 2 ) * 3', 'g0 + ( )', '( , )', '( ( * 1 ) )', '2 : ( * 3 )']
 
+# faults the scanner itself reports (an identifier longer than the limit, characters outside the alphabet, a number outside its type): the scanner runs outside the
+# grammar's exception barrier, so whatever it does about them must stay inside the per-block parse
+LEX_FAULTS = ['g0 == ' + 'q' * 4001, 'q' * 4001 + ' > 0', 'g0 == 1 && ' + 'z' * 5000 + ' == 2', 'w' * 4000 + ' == 1', 'g0 @ 1', 'g0 == 1 `', 'g0 == 99999999999999999999', 'g0 # 1', 'g0 == 1 \\ 2', 'g0 == 1e999', '$g0 == 1']
+
 _SIM = []
 def leaves_stray_fragment(text):
     """the known defect of the rate label: the faulted text leaves an expression fragment behind (beyond the one a complete parse delivers), which the location then takes
@@ -167,6 +171,7 @@ def check(run):
             if S['what'] in ('rate', 'invariant') and rng.random() < 0.4: bad = rng.choice(RECOVERED)
             elif r < 0.3: bad = rng.choice(FAULTS)
             elif r < 0.5: bad = rng.choice(SEM_FAULTS)
+            elif r < 0.58: bad = rng.choice(LEX_FAULTS)
             elif r < 0.9: bad = crashgen.mutate_tokens(rng, orig, n=1)
             else: bad = orig + ' ' + rng.choice(FAULTS + ['/* never closed', '/* open\n comment'])
             if bad == orig:
